@@ -82,15 +82,18 @@ func (nilCall) Common() *ssa.CallCommon { return &ssa.CallCommon{} }
 func init() {
 	register(&Property{
 		ID: "C35",
-		Explanation: "Decides the shape of the retry wrapper: (retry-save) inside the retried operation of retry.Backend.Save the backend Save is reachable only through the success edge of rd.Rewind() (every attempt starts at the beginning of the data), and from a failed attempt every way out passes the HasAtomicReplace==true edge or a Remove of the same handle — no condition other than atomic replace may skip the removal of the partial file — and the failure is reported (nil only if the backend's Save returned nil); (list-dedup) in retry.Backend.List the caller's callback is invoked only on the 'name not yet reported' edge, the name is inserted into the same set on every path through the invocation, and the set is created once per List call outside the retried operation; (permanent) the operation wrapper converts the operation's error into backoff.Permanent once the permanent-error attempts are used up and consults Backend.IsPermanentError, Stat treats not-exist as permanent, and Save/Load/Stat/Remove/List are all overridden and perform their backend call only inside be.retry. Not decided: the outcome under every fault sequence and retry budget (behaviour of the backoff library).",
+		Explanation: "Decides the shape of the retry wrapper: (retry-save) inside the retried operation of retry.Backend.Save the backend Save is reachable only through the success edge of rd.Rewind() (every attempt starts at the beginning of the data), and from a failed attempt every way out passes the HasAtomicReplace==true edge or a Remove of the same handle — no condition other than atomic replace may skip the removal of the partial file — and the failure is reported (nil only if the backend's Save returned nil); (list-dedup) in retry.Backend.List the caller's callback is invoked only on the 'name not yet reported' edge, the name is inserted into the same set on every path through the invocation, and the set is created once per List call outside the retried operation; (permanent) the operation wrapper converts the operation's error into backoff.Permanent once the permanent-error attempts are used up and consults Backend.IsPermanentError, Stat treats not-exist as permanent, and Save/Load/Stat/Remove/List are all overridden and perform their backend call only inside be.retry. (load-consumer-starts-afresh) every function literal handed to Backend.Load as consumer — which the retry layer calls again after an attempt that failed half-way — copies into a destination it creates itself, never into a captured bytes.Buffer that it has not emptied first (added after a seeded change that hoisted loadRaw's buffer out of the consumer: partial + full bytes were returned with a nil error). Not decided: the outcome under every fault sequence and retry budget (behaviour of the backoff library).",
 		Assumptions: append([]string{"github.com/cenkalti/backoff stops retrying on backoff.Permanent errors"}, commonAssumptions...),
 		Technique:   "static analysis: CFG edge cuts inside the retried closures + wrapper-method coverage (go/ssa, go/types)",
 		Run: func(c *eng.Ctx) {
+			ruleLoadConsumerStartsAfresh(c)
 			ruleRetrySave(c)
 			ruleRetryListDedup(c)
 			ruleRetryPermanent(c)
 		},
 		Controls: []Control{
+			{Name: "loadraw-buffer-outside-the-consumer", File: "internal/repository/raw.go",
+				Old: "	err = be.Load(ctx, h, 0, 0, func(rd io.Reader) error {\n		wr := new(bytes.Buffer)\n", New: "	wr := new(bytes.Buffer)\n	err = be.Load(ctx, h, 0, 0, func(rd io.Reader) error {\n", Rule: "load-consumer-starts-afresh"},
 			{Name: "retry-without-rewind", File: "internal/backend/retry/backend_retry.go",
 				Old: "		err := rd.Rewind()\n		if err != nil {\n			return err\n		}\n\n		err = be.Backend.Save(ctx, h, rd)", New: "		err := be.Backend.Save(ctx, h, rd)", Rule: "retry-save"},
 			{Name: "keep-partial-file", File: "internal/backend/retry/backend_retry.go",
